@@ -366,6 +366,52 @@ func checkC04(r *core.Run) {
 			}
 			return true, f
 		}})
+		// the running totals cannot wrap around: a total is compared with MAX_MONEY in the same loop iteration
+		// that added a (range-checked) value to it, so it never exceeds 2*MAX_MONEY < 2^64; a comparison made
+		// only after the loop sees the sum modulo 2^64
+		noWrap := func(fn *ssa.Function, key, what string) {
+			if fn == nil {
+				r.Fail("R-C04-money", key, "-", "function not found")
+				return
+			}
+			loops := an.LoopBlocks(fn)
+			n, inLoop := 0, 0
+			for _, b := range fn.Blocks {
+				iff, ok := b.Instrs[len(b.Instrs)-1].(*ssa.If)
+				if !ok {
+					continue
+				}
+				x, y, rel, ok := an.CondCmp(iff.Cond)
+				if !ok {
+					continue
+				}
+				k, isC := an.ConstOf(y)
+				sub := x
+				if !isC {
+					k, isC = an.ConstOf(x)
+					sub = y
+				}
+				if !isC || k.Cmp(maxMoney) != 0 || (rel != token.GTR && rel != token.LSS && rel != token.GEQ && rel != token.LEQ) {
+					continue
+				}
+				// a running total: a phi, a sum, or a load of a local cell - not a field load
+				if ld, isLoad := sub.(*ssa.UnOp); isLoad {
+					if _, fromField := ld.X.(*ssa.FieldAddr); fromField {
+						continue
+					}
+				}
+				if !an.Atoms(sub)[tTxOutValue] {
+					continue
+				}
+				n++
+				if loops[b] {
+					inLoop++
+				}
+			}
+			r.Check(n > 0 && inLoop == n, "R-C04-money", key, p.Pos(fn.Pos()), what, fmt.Sprintf("%d of %d comparisons of a running total with MAX_MONEY are made inside the accumulating loop; a total compared only after the loop can wrap around 2^64", inLoop, n))
+		}
+		noWrap(chk, "output-total-no-wrap", "the output total is compared with MAX_MONEY after every addition")
+		noWrap(ct, "input-total-no-wrap", "the input total is compared with MAX_MONEY after every addition")
 		// CheckTransaction is applied to every transaction of a block before connection
 		cts := p.Func("lib/chain.CheckTransactions")
 		r.Check(cts != nil && len(an.CallsTo(cts, true, "(*lib/btc.Tx).CheckTransaction")) > 0, "R-C04-money", "CheckTransaction-applied", "-", "CheckTransactions calls CheckTransaction for the block's transactions", "CheckTransaction is no longer applied to block transactions")
